@@ -156,3 +156,26 @@ func H_C06_WiringKeepers() {
 		hasStr(init, "EnterpriseKeeper=EnterpriseKeeper") && hasStr(init, "BK=BankKeeper"))
 	rt.Reach("end")
 }
+
+func lastIndex(xs []string, want string) int {
+	idx := -1
+	for i, x := range xs {
+		if x == want {
+			idx = i
+		}
+	}
+	return idx
+}
+
+// H_C15_WiringGenesisOrder: the crisis module asserts every registered invariant during its own
+// InitGenesis, so a chain started from an exported genesis only comes up if crisis is initialised
+// AFTER every module that registers invariants over imported state — of the custom modules:
+// enterprise (escrow = total locked) and stream (escrow = sum of deposits); bank before them.
+func H_C15_WiringGenesisOrder() {
+	order := rtw.InitGenesisOrder()
+	crisis := lastIndex(order, "crisis")
+	rt.Assert("C15.all-custom-modules-initialised-from-genesis", lastIndex(order, "enterprise") >= 0 && lastIndex(order, "wrkchain") >= 0 && lastIndex(order, "beacon") >= 0 && lastIndex(order, "stream") >= 0)
+	rt.Assert("C15.bank-before-escrow-modules", lastIndex(order, "bank") >= 0 && lastIndex(order, "bank") < indexOf(order, func(s string) bool { return s == "enterprise" }) && lastIndex(order, "bank") < indexOf(order, func(s string) bool { return s == "stream" }))
+	rt.Assert("C15.invariants-asserted-after-stream-and-enterprise-import", crisis < 0 || (crisis > indexOf(order, func(s string) bool { return s == "stream" }) && crisis > indexOf(order, func(s string) bool { return s == "enterprise" })))
+	rt.Reach("end")
+}
